@@ -224,10 +224,12 @@ Lemma lookup_prev_ok fx w h i t m txof :
   t = txof h /\ (m <> None -> 0 <= i /\ exists o, nth_error t (Z.to_nat i) = Some o /\ wf_out o).
 Proof.
   intros Hc Hu H. unfold lookup_prev in H. apply bind_ok in H. destruct H as (r & Hr & H).
-  unfold exists_msg_tx in Hr. destruct (cur2 w); [|destruct (fx_cur_nil fx); discriminate].
-  inversion Hr; subst r; clear Hr.
-  destruct (st_credit (st w) h i) as [t' ht| |] eqn:E; try discriminate.
-  - inversion H; subst. destruct (Hc _ _ _ _ E) as (-> & Hi & Ho). split; [reflexivity|]. intros _. auto.
+  assert (Hr' : r = NotFound \/ r = st_credit (st w) h i).
+  { unfold exists_msg_tx in Hr. destruct (cur2 w); [inversion Hr; auto|].
+    destruct (fx_cur_nil fx); [inversion Hr; auto|discriminate]. }
+  destruct r as [t' ht| |]; try discriminate.
+  - destruct Hr' as [Hr'|Hr']; [discriminate|]. symmetry in Hr'.
+    inversion H; subst. destruct (Hc _ _ _ _ Hr') as (-> & Hi & Ho). split; [reflexivity|]. intros _. auto.
   - destruct (st_unmined (st w) h) as [t'|] eqn:U; [|discriminate]. inversion H; subst.
     split; [exact (Hu _ _ U)|]. intros C; congruence.
 Qed.
@@ -249,24 +251,27 @@ Proof.
       destruct (fx_cti_block fx) eqn:F; [discriminate|]. inversion H; subst. exact F.
 Qed.
 
-Lemma cti_loop_panic fx w inputs p : inputs_ok inputs -> cti_loop fx w inputs = Panic p -> guarded_by fx p = false.
+Lemma cti_loop_panic fx w inputs : forall seen p,
+  inputs_ok inputs -> cti_loop fx w seen inputs = Panic p -> guarded_by fx p = false.
 Proof.
-  induction inputs as [|i r IH]; cbn [cti_loop]; [discriminate|]. intros Hi H.
+  induction inputs as [|i r IH]; intros seen p Hi H; cbn [cti_loop] in H; [discriminate|].
   pose proof (Forall_inv Hi) as Hv. pose proof (Forall_inv_tail Hi) as Ht.
+  match type of H with (if ?c then _ else _) = _ => destruct c; [discriminate|] end.
   apply bind_panic in H. destruct H as [H|(c & _ & H)]; [exact (cti_one_panic _ _ _ _ Hv H)|].
-  apply bind_panic in H. destruct H as [H|(cs & _ & H)]; [exact (IH Ht H)|discriminate].
+  apply bind_panic in H. destruct H as [H|(cs & _ & H)]; [exact (IH _ _ Ht H)|discriminate].
 Qed.
 
 Lemma construct_tx_in_panic fx w inputs p :
   inputs_ok inputs -> construct_tx_in fx w inputs = Panic p -> guarded_by fx p = false.
 Proof. intros Hi. unfold construct_tx_in. destruct (cur w); [apply cti_loop_panic; exact Hi|discriminate]. Qed.
 
-Lemma cti_loop_length fx w inputs cs : cti_loop fx w inputs = Ok cs -> length cs = length inputs.
+Lemma cti_loop_length fx w inputs : forall seen cs, cti_loop fx w seen inputs = Ok cs -> length cs = length inputs.
 Proof.
-  revert cs. induction inputs as [|i r IH]; cbn [cti_loop]; intros cs H.
+  induction inputs as [|i r IH]; intros seen cs H; cbn [cti_loop] in H.
   - inversion H. reflexivity.
-  - apply bind_ok in H. destruct H as (c & _ & H). apply bind_ok in H. destruct H as (cs' & Hcs & H).
-    inversion H; subst. cbn. f_equal. exact (IH _ Hcs).
+  - match type of H with (if ?c then _ else _) = _ => destruct c; [discriminate|] end.
+    apply bind_ok in H. destruct H as (c & _ & H). apply bind_ok in H. destruct H as (cs' & Hcs & H).
+    inversion H; subst. cbn. f_equal. exact (IH _ _ Hcs).
 Qed.
 
 (* ---------------------------------------------------------------- estimateSignedSize *)
@@ -300,8 +305,8 @@ Proof.
   intros Hw Hi H. unfold wm_create_raw_transaction in H.
   apply bind_panic in H. destruct H as [H|(senders & Hs & H)]; [exact (construct_tx_in_panic _ _ _ _ Hi H)|].
   apply bind_panic in H. destruct H as [H|(u & _ & H)].
-  - destruct ce; [|discriminate].
-    destruct (fx_senders fx && null senders) eqn:G; [discriminate|].
+  - destruct (fx_senders fx && null senders) eqn:G; [discriminate|].
+    destruct ce; [|discriminate].
     apply bind_panic in H. destruct H as [H|(c & _ & H)]; [|discriminate].
     destruct (idx_panic _ _ _ _ H) as (-> & Hr). cbn [guarded_by].
     destruct (fx_senders fx); [|reflexivity]. cbn [andb] in G.
@@ -345,6 +350,9 @@ Proof.
       unfold exists_out_point in Hfl. destruct (cur2 w); [|destruct (fx_cur_nil fx); discriminate].
       inversion Hfl as [E]. pose proof (Hx _ _ _ E) as Hr. rewrite <- Ht in Hr.
       destruct (idx_in_bounds PSignIndex (fst (fst ec)) i Hr) as (o & Eo). rewrite Eo in H. cbn [bind] in H.
+      apply bind_panic in H. destruct H as [H|(u & _ & H)].
+      { destruct (ov_parse o); [|discriminate]. destruct (cur3 w); [discriminate|].
+        destruct (fx_cur3_nil fx) eqn:F; [discriminate|]. inversion H; subst. exact F. }
       destruct (negb so); [discriminate|].
       destruct (snd (fst ec)).
       * exact (IH _ _ _ Hc Hu Hx Hcache' H).
@@ -367,7 +375,7 @@ Proof.
   intros (txof & Hc & _ & _) (t & ht & E) H. unfold add_one in H.
   apply bind_panic in H. destruct H as [H|(r & Hr & H)].
   - destruct (exists_msg_tx_panic _ _ _ _ _ H) as (-> & Hf & _). exact Hf.
-  - unfold exists_msg_tx in Hr. destruct (cur2 w); [|destruct (fx_cur_nil fx); discriminate].
+  - unfold exists_msg_tx in Hr. destruct (cur2 w); [|destruct (fx_cur_nil fx); [inversion Hr; subst r; discriminate|discriminate]].
     inversion Hr; subst r. rewrite E in H.
     destruct (Hc _ _ _ _ E) as (_ & Hi & o & Ho & _). rewrite (idx_nth _ _ _ _ Hi Ho) in H. cbn [bind] in H.
     destruct (ov_parse o); discriminate.
@@ -387,8 +395,8 @@ Lemma find_eligible_panic fx w n p : find_eligible fx w n = Panic p -> guarded_b
 Proof.
   unfold find_eligible. intros H. apply bind_panic in H. destruct H as [H|(u & _ & H)].
   - destruct (script_address_scan_panic _ _ _ _ H) as (-> & Hf & _). exact Hf.
-  - destruct n; [discriminate|]. destruct (cur2 w); [discriminate|].
-    destruct (fx_cur_nil fx) eqn:F; [discriminate|]. inversion H; subst. exact F.
+  - destruct n; [discriminate|]. destruct (cur3 w); [discriminate|].
+    destruct (fx_cur3_nil fx) eqn:F; [discriminate|]. inversion H; subst. exact F.
 Qed.
 
 Lemma wm_auto_create_panic fx w sel ro p :
@@ -413,7 +421,7 @@ Qed.
 Lemma wm_all_addresses_panic fx w p : wm_all_addresses_with_pubkey fx w = Panic p -> guarded_by fx p = false.
 Proof.
   unfold wm_all_addresses_with_pubkey. destruct (cur w); [|discriminate]. destruct (cur2 w); [discriminate|].
-  destruct (fx_cur_nil fx) eqn:F; [discriminate|]. intros H; inversion H; subst. exact F.
+  destruct (fx_cur3_nil fx) eqn:F; [discriminate|]. intros H; inversion H; subst. exact F.
 Qed.
 
 Lemma wm_new_address_no_panic w next p :
@@ -550,6 +558,7 @@ Proof.
     apply bind_panic in H. destruct H as [H|(u & _ & H)]; [|exfalso; exact (answer_no_panic _ _ H)].
     destruct (wm_balance_panic _ _ _ _ _ H) as (-> & Hf). exact Hf.
   - (* CreateAddress *)
+    destruct (cur w); [|discriminate].
     apply bind_panic in H. destruct H as [H|(u & _ & H)]; [|exfalso; exact (answer_no_panic _ _ H)].
     exfalso. exact (wm_new_address_no_panic _ _ _ Hna H).
   - (* GetAllAddressesWithPubkey *) exact (wm_all_addresses_panic _ _ _ H).
@@ -561,8 +570,8 @@ Proof.
     exact (wm_create_raw_transaction_panic _ _ _ _ _ _ Hw (inputs_ok_map trim _ Hr) H).
   - (* WalletManager.CreateRawTransaction *)
     exact (wm_create_raw_transaction_panic _ _ _ _ _ _ Hw Hr H).
-  - (* AutoCreateTransaction *) exact (wm_auto_create_panic _ _ _ _ _ Hw Hsel H).
-  - (* CreateStakingTransaction *) exact (wm_auto_create_panic _ _ _ _ _ Hw Hsel H).
+  - (* AutoCreateTransaction *) destruct (cur w); [|discriminate]. exact (wm_auto_create_panic _ _ _ _ _ Hw Hsel H).
+  - (* CreateStakingTransaction *) destruct (cur w); [|discriminate]. exact (wm_auto_create_panic _ _ _ _ _ Hw Hsel H).
   - (* GetTransactionFee *)
     destruct (cur w); [|discriminate]. destruct inputs as [|i0 inputs'].
     + exact (wm_auto_create_panic _ _ _ _ _ Hw Hsel H).
@@ -618,24 +627,25 @@ Theorem api_as_found_panics_only_at_pending_sites trim e w r p :
   sequential w -> taskchan w = true ->
   handle trim as_found e w r = Panic p -> p = PCtiIndex \/ p = PCtiBlockNil \/ p = PSignMetaNil.
 Proof.
-  intros Hw He Hs Hr Ha Hseq Htc H.
+  intros Hw He Hs Hr Ha (Hseq & Hseq3) Htc H.
   (* re-run the analysis with the switches of the sites that cannot fire here turned on *)
-  set (fx := {| fx_cti_index := false; fx_cti_block := false; fx_senders := true; fx_sign_meta := false; fx_sign_len0 := false;
-                fx_cur_nil := true; fx_import_rec := true; fx_taskchan := true; fx_select_neg := true |}).
+  set (fx := {| fx_cti_index := false; fx_cti_block := false; fx_cti_dup := false; fx_senders := true; fx_sign_meta := false; fx_sign_len0 := false;
+                fx_cur_nil := true; fx_cur3_nil := true; fx_import_rec := true; fx_taskchan := true; fx_select_neg := true |}).
   assert (E : handle trim as_found e w r = handle trim fx e w r).
   { unfold handle. destruct (prologue trim r) eqn:P; cbn [bind]; try reflexivity.
     destruct (cur w) as [c|] eqn:C.
     - (* a wallet is selected: both reads see it *)
       assert (Hc2 : forall q, script_address_scan q as_found w = script_address_scan q fx w).
-      { intros q. unfold script_address_scan. rewrite Hseq, C. reflexivity. }
+      { intros q. unfold script_address_scan. rewrite Hseq. reflexivity. }
       assert (Hm : forall h i, exists_msg_tx as_found w h i = exists_msg_tx fx w h i).
-      { intros h i. unfold exists_msg_tx. rewrite Hseq, C. reflexivity. }
+      { intros h i. unfold exists_msg_tx. rewrite Hseq. reflexivity. }
       assert (Ho : forall h i, exists_out_point as_found w h i = exists_out_point fx w h i).
-      { intros h i. unfold exists_out_point. rewrite Hseq, C. reflexivity. }
+      { intros h i. unfold exists_out_point. rewrite Hseq. reflexivity. }
       assert (Hl : forall h i, lookup_prev as_found w h i = lookup_prev fx w h i).
       { intros h i. unfold lookup_prev. rewrite Hm. reflexivity. }
-      assert (Hcti : forall inputs, cti_loop as_found w inputs = cti_loop fx w inputs).
-      { induction inputs as [|i r' IH]; [reflexivity|]. cbn [cti_loop]. rewrite IH. unfold cti_one. 
+      assert (Hcti : forall inputs seen, cti_loop as_found w seen inputs = cti_loop fx w seen inputs).
+      { induction inputs as [|i r' IH]; intros seen; [reflexivity|]. cbn [cti_loop]. rewrite IH. unfold cti_one.
+        change (fx_cti_dup as_found) with false. change (fx_cti_dup fx) with false.
         destruct (hash_from_str (in_txid i)); [|reflexivity]. rewrite Hl. reflexivity. }
       assert (Hest : forall ops, est_loop as_found w ops = est_loop fx w ops).
       { induction ops as [|[h i] r' IH]; [reflexivity|]. cbn [est_loop]. rewrite IH. unfold est_one. rewrite Hm. reflexivity. }
@@ -650,16 +660,19 @@ Proof.
         change (fx_sign_meta as_found) with false. change (fx_sign_meta fx) with false.
         destruct (if lenZ (fst e0) =? 0 then false else lenZ (fst e0) - 1 <? i); [reflexivity|].
         destruct (exists_out_point fx w h i) as [[[|]|]| |]; cbn [bind]; try reflexivity.
-        destruct (idx PSignIndex (fst e0) i); cbn [bind]; try reflexivity.
+        destruct (idx PSignIndex (fst e0) i) as [o| |]; cbn [bind]; try reflexivity.
+        rewrite Hseq3.
+        destruct (ov_parse o); cbn [bind]; [|reflexivity].
         destruct (negb so); [reflexivity|]. destruct (snd e0); [apply IH|reflexivity]. }
       assert (Hfe : forall n, find_eligible as_found w n = find_eligible fx w n).
-      { intros n. unfold find_eligible. rewrite Hc2. rewrite Hseq, C. reflexivity. }
+      { intros n. unfold find_eligible. rewrite Hc2. rewrite Hseq3. reflexivity. }
       assert (Hcr : forall inputs ce ro, inputs <> [] -> wm_create_raw_transaction as_found w inputs ce ro = wm_create_raw_transaction fx w inputs ce ro).
       { intros inputs ce ro Hne. unfold wm_create_raw_transaction, construct_tx_in, estimate_manual_tx_fee. rewrite C, Hcti.
-        destruct (cti_loop fx w inputs) as [senders| |] eqn:L; cbn [bind]; try reflexivity.
+        destruct (cti_loop fx w [] inputs) as [senders| |] eqn:L; cbn [bind]; try reflexivity.
         assert (senders <> []) as Hsn.
         { apply cti_loop_length in L. destruct senders; [destruct inputs; [congruence|discriminate]|congruence]. }
-        destruct senders as [|s0 ss]; [congruence|]. cbn [fx_senders as_found fx null andb].
+        destruct senders as [|s0 ss]; [congruence|].
+        change (fx_senders as_found && null (s0 :: ss)) with false. change (fx_senders fx && null (s0 :: ss)) with false.
         destruct (parse_inputs inputs); [rewrite Hest|]; reflexivity. }
       destruct r; cbn [deep api_request] in *; try contradiction; try reflexivity;
         unfold task_queue, wm_balance, wm_auto_create, wm_sign_raw_tx, estimate_manual_tx_fee;
@@ -698,10 +711,11 @@ Definition store0 : store :=
      st_unmined := fun h => if (h =? 1)%N then Some tx_pending else None;
      st_utxo := fun h i => if (h =? 1)%N && (0 <=? i) && (i <? 2) then Some false
                            else if (h =? 2)%N && (i =? 0) then Some false else None |}.
-Definition w_sel : wst := {| cur := Some 5%N; cur2 := Some 5%N; st := store0; taskchan := true |}.
-Definition w_none : wst := {| cur := None; cur2 := None; st := store0; taskchan := true |}.
-Definition w_race : wst := {| cur := Some 5%N; cur2 := None; st := store0; taskchan := true |}.       (* removal completed between two reads *)
-Definition w_starting : wst := {| cur := None; cur2 := None; st := store0; taskchan := false |}.      (* worker() not yet scheduled *)
+Definition w_sel : wst := {| cur := Some 5%N; cur2 := Some 5%N; cur3 := Some 5%N; st := store0; taskchan := true |}.
+Definition w_none : wst := {| cur := None; cur2 := None; cur3 := None; st := store0; taskchan := true |}.
+Definition w_race : wst := {| cur := Some 5%N; cur2 := None; cur3 := None; st := store0; taskchan := true |}.       (* removal completed between the first two reads *)
+Definition w_race3 : wst := {| cur := Some 5%N; cur2 := Some 5%N; cur3 := None; st := store0; taskchan := true |}.  (* … after the store was read *)
+Definition w_starting : wst := {| cur := None; cur2 := None; cur3 := None; st := store0; taskchan := false |}.      (* worker() not yet scheduled *)
 
 Lemma wf_store0 : wf_store store0.
 Proof.
@@ -757,7 +771,7 @@ Theorem as_found_refuted :
   (* the import task meets a transaction the index lists but the script reader does not accept *)
   async_import as_found [ImpRelevant; ImpNotRelevant] = Panic PImportRecNil.
 Proof.
-  split; [exact wf_store0|]. split; [reflexivity|]. split; [exact wf_env0|].
+  split; [exact wf_store0|]. split; [split; reflexivity|]. split; [exact wf_env0|].
   repeat split; vm_compute; reflexivity.
 Qed.
 
